@@ -1,6 +1,7 @@
 """C13 Call-graph attributes (depth, height, kernel totals) agree with the tree."""
 from __future__ import annotations
 
+import os
 from typing import Any, Dict, List, Optional, Set, Tuple
 
 from hypothesis import strategies as st
@@ -223,7 +224,16 @@ def check(case: Dict[str, Any]) -> CaseInfo:
         ta = load_analysis(files, d, mp=case.get("mp", False), prelude=case.get("prelude"))
         from hta.common.trace_call_graph import CallGraph
 
-        cg = hta_call("CallGraph", lambda: CallGraph(ta.t))
+        old = os.environ.pop("HTA_DISABLE_CG_DEPTH", None)
+        if case.get("cg_depth_option_off"):
+            os.environ["HTA_DISABLE_CG_DEPTH"] = "1"
+            classes.append("HTA_DISABLE_CG_DEPTH")
+        try:
+            cg = hta_call("CallGraph", lambda: CallGraph(ta.t))
+        finally:
+            os.environ.pop("HTA_DISABLE_CG_DEPTH", None)
+            if old is not None:
+                os.environ["HTA_DISABLE_CG_DEPTH"] = old
         shift = ta.t.min_ts if case.get("unrounded") else int(ta.t.min_ts)
         for rd in case["ranks"]:
             df = ta.t.get_trace(rd["rank"])
@@ -247,8 +257,10 @@ def c13_case(draw):
         # the annotation on one rank only: the other rank must fall back to its profiler steps (the symbol table is shared)
         o.backward_ann_ranks = draw(st.sampled_from([[0], [1]]))
         case = draw(sim_case(o, max_ranks=2, nranks_choices=[2]))
-        return case
-    case = draw(sim_case(o, max_ranks=2))
+    else:
+        case = draw(sim_case(o, max_ranks=2))
+    # HTA_DISABLE_CG_DEPTH=1 skips one (redundant) depth pass of the call-stack builder; every attribute must come out the same
+    case["cg_depth_option_off"] = draw(st.sampled_from([False, False, False, True]))
     return case
 
 
